@@ -136,7 +136,7 @@ func init() {
 	core.Register(&core.Prop{
 		ID:    "C10",
 		Title: "Bidirectional maps are always one-to-one in both directions",
-		Cases: func(tier string) int { return tierN(tier, 40000, 800000) },
+		Cases: func(tier string) int { return tierN(tier, 40000, 2400000) },
 		Run:   runC10,
 		Rule: "random Put/Remove/Get/Clear histories on HashBidiMap and TreeBidiMap (natural, reversed, coarsened key and value comparators) over 4-6 keys x 4-6 values, so that every collision kind occurs constantly. " +
 			"After every call Get is asked for every key and GetKey for every value of the alphabets (plus absent probes) and compared with a pair of inverse model maps; Get(k)=(v,true) <=> GetKey(v)=(k,true) is checked on the implementation's own answers; " +
